@@ -2,6 +2,7 @@ package main
 
 import (
 	"fmt"
+	"go/token"
 	"go/types"
 	"strings"
 
@@ -11,7 +12,7 @@ import (
 // ---------------------------------------------------------------------------
 // PAIR: sibling agreement between writer and reader of one format.
 
-const rulePAIRText = "sibling agreement: writer and reader of a format use the same callee for the same role - coder constructor (NewCoderPAR2Vandermonde on both PAR2 sides; reedsolomon.New(data, parity, WithPAR1Matrix()) on both PAR1 sides), the coder's dimensions are the lengths of the very slices handed to it, slice padding through sliceAndPadByteArray, crc32.ChecksumIEEE and md5.Sum for slice checksums, unicode/utf16 for PAR1 names; PAIR-ERRTYPE: the type asserted by par2.RepairErrorMeansRepairNecessaryButNotPossible is exactly the type returned by Coder.ReconstructData on the not-enough-shards edge and by no other return"
+const rulePAIRText = "sibling agreement: writer and reader of a format use the same callee for the same role - coder constructor (NewCoderPAR2Vandermonde on both PAR2 sides; reedsolomon.New(data, parity, WithPAR1Matrix()) on both PAR1 sides), the coder's dimensions are the lengths of the very slices handed to it, slice padding through sliceAndPadByteArray, crc32.ChecksumIEEE and md5.Sum for slice checksums, unicode/utf16 for PAR1 names; PAIR-ERRTYPE: the type asserted by par2.RepairErrorMeansRepairNecessaryButNotPossible is exactly the type returned by Coder.ReconstructData on a too-few-inputs edge (len(input) < dataShards, or nothing collected) and on no other path"
 
 func callsIn(fn *ssa.Function, callee string) []ssa.CallInstruction {
 	var out []ssa.CallInstruction
@@ -333,19 +334,27 @@ func rulePAIRERRTYPE(w *World, r *Report) {
 					if strings.HasSuffix(px.Path, ".dataShards") || strings.HasSuffix(py.Path, ".dataShards") {
 						onEdge = true
 					}
+					// nothing collected at all is also 'fewer than dataShards'
+					if z, isC := constInt(c.Y); isC && z == 0 && c.Op == token.EQL && isBuiltinCall(c.X, "len") != nil {
+						onEdge = true
+					}
 				}
 			}
+			ek := "errtype:not-enough-edge"
+			if match > 1 {
+				ek = fmt.Sprintf("errtype:not-enough-edge#%d", match-1)
+			}
 			if onEdge {
-				r.ok("PAIR", "errtype:not-enough-edge", w.ipos(ret), "the asserted type "+typeStr(asserted)+" is returned exactly where fewer shards than dataShards are available")
+				r.ok("PAIR", ek, w.ipos(ret), "the asserted type "+typeStr(asserted)+" is returned where fewer shards than dataShards are available")
 			} else {
-				r.bad("PAIR", "errtype:not-enough-edge", w.ipos(ret), typeStr(asserted)+" is returned on a path that is not the 'fewer inputs than data shards' edge")
+				r.bad("PAIR", ek, w.ipos(ret), typeStr(asserted)+" is returned on a path that is not the 'fewer inputs than data shards' edge")
 			}
 		}
 	}
-	if match == 1 {
-		r.ok("PAIR", "errtype:unique", w.pos(rec.Pos()), fmt.Sprintf("exactly one of %d concrete-error returns of ReconstructData has the type the classifier asserts", n))
+	if match >= 1 {
+		r.ok("PAIR", "errtype:present", w.pos(rec.Pos()), fmt.Sprintf("%d of %d concrete-error returns of ReconstructData have the type the classifier asserts, each on a too-few-inputs edge", match, n))
 	} else {
-		r.bad("PAIR", "errtype:unique", w.pos(rec.Pos()), fmt.Sprintf("%d returns of ReconstructData have the type the classifier asserts (%s); expected exactly one: 'needed but not possible' would be misclassified", match, typeStr(asserted)))
+		r.bad("PAIR", "errtype:present", w.pos(rec.Pos()), fmt.Sprintf("no return of ReconstructData has the type the classifier asserts (%s): 'needed but not possible' is never recognised", typeStr(asserted)))
 	}
 	// par1: classifier compares by identity with reedsolomon.ErrTooFewShards
 	if c1 := w.Fn("par1.RepairErrorMeansRepairNecessaryButNotPossible"); c1 != nil {
